@@ -126,6 +126,17 @@ CHECKS["C15"] = dict(
     note=NOTE_BASE + "Modelled: Python dict ordering (replace in place / append), base64 laxity.",
     technique="Coq proof (effect/frame theorems of the mirror) + correspondence + independent reference interpreter",
     design="4/C15")
+CHECKS["C16"] = dict(
+    text="Theorems: each_callback_sees_exactly_its_matching_events (per-callback log = filter of the raised events, in order), "
+         "removed_callback_is_gone, unregistered_callback_is_never_invoked; value_events_form_unbroken_chains: for EVERY stream of server messages "
+         "from an empty client, the mirror holds for every element exactly the new value of the latest value event about it, each value event's old "
+         "value is the previous event's new value (nothing at a definition) and update events are raised only for real changes (invariant by "
+         "induction over the stream, one_message_keeps_the_chains). Correspondence: BaseClient with callbacks of every filter combination, plain / "
+         "coroutine / raising, registered and removed by id or criteria between messages; deliveries per operation compared; internal-consistency "
+         "oracle via a catch-all callback. (State-event chains are covered by the correspondence and oracle only.)",
+    note=NOTE_BASE + "Modelled: callbacks registered/removed between messages; coroutine callbacks as 'run afterwards'.",
+    technique="Coq proof (invariant over message streams; log filtering lemmas) + correspondence",
+    design="4/C16")
 PENDING = {}
 props = [json.loads(l) for l in open(os.path.join(V, "properties.jsonl"))]
 checks, na = [], []
